@@ -445,8 +445,9 @@ def run_threaded(h, ctx, ge):
     ctx.count('line_events', yi.lines)
     misses = [(e[0], e[1], e[2]) for e in ge.log[ge_log_start:] if e[1] in ('do_codegen', 'do_compile')]
     ordering = tuple(e[0] for e in misses)
-    ctx.cases.add('ord-' + str(hash(ordering) & 0xffffffffffff))
-    ctx.count('distinct_miss_orderings')       # one per run; duplicates are improbable and harmless for a floor
+    ctx.distinct('orderings_of_cache_miss_events_across_threads', (cfg, ordering))
+    ctx.distinct('interleaving_prefixes_of_8_miss_events', ordering[:8])
+    ctx.count('distinct_miss_orderings')       # one per run (floor); the distinct count is reported under distinct_observations
     ctx.count('cache_misses', len(misses))
     dup = len(misses) - len({(e[2]) for e in misses})
     ctx.count('racing_double_generation_events_recorded_not_judged', max(0, dup))
@@ -521,6 +522,8 @@ def run_race(h, ctx, ge):
             ctx.count('race_rounds_inconclusive')
             continue
         ctx.count('race_rounds')
+        ctx.distinct('race_round_key_order_combinations', [s_['keys'] for s_ in steps])
+        ctx.distinct('race_round_outcomes', [r_ for r_ in results])
         ctx.count('yields_injected', yi.yields)
         ctx.count('line_events', yi.lines)
         for t in range(T):
